@@ -16,7 +16,7 @@ def extra_jobs(tier):
             functions=[fn_id(CT.ctparse), fn_id(CT.CTParse.__str__), fn_id(CT.CTParse.__repr__), fn_id(CT._get_labels)],
             stubs=["ctparse_gen replaced by a scripted stream"], lift="lift_result", site="ctparse"),
         Job("C01.default-scorer", H, "ob_default_scorer", timeout=60, bounds="model file present / absent (symbolic bool)",
-            functions=[fn_id(LD.load_default_scorer)], stubs=["os.path.exists -> symbolic bool; bz2.open / pickle.load -> inert objects"], site="load_default_scorer"),
+            functions=[fn_id(LD.load_default_scorer)], stubs=["absent case: the real loader runs against a path that does not exist; present case: the scorer loaded at import is inspected"], site="load_default_scorer"),
     ] + [
         Job("C01.duration-overflow[{}:{}..{}]".format(u, lo, hi), H, "ob_overflow", timeout=200,
             env={"VQ_ULO": str(ui), "VQ_UHI": str(ui + 1), "VQ_NLO": str(lo), "VQ_NHI": str(hi)},
@@ -26,6 +26,8 @@ def extra_jobs(tier):
         for ui, u in enumerate(["minutes", "hours", "days", "nights", "weeks"])
         for (lo, hi) in ((10 ** 10, 10 ** 13),)
     ] + [
+        Job("C01.LSE-RANGE", "vq.harness.h_pure", "ob_lse_range", timeout=300, bounds="_log_sum_exp on pairs from {-5000, -1000, -800, -745.5, -30, -1, 0}: finite, within [max, max + log 2] (no underflow to log 0)",
+            functions=["ctparse.nb_estimator._log_sum_exp"], site="_log_sum_exp"),
         Job("C01.duration-interval-big", H, "ob_durint_big", timeout=200, bounds="'N <unit> <date range>' with 0 <= N <= 10^13",
             functions=[fn_id(body("ruleDurationInterval"))], site="ruleDurationInterval"),
     ]
